@@ -41,3 +41,8 @@ for _k in range(7):
                            bounds="to_csv() and str(table) on [v0 x rep, v1] / [v0]: v0 the %d-th (per process), v1 any (symbolic index) of 0, False, '', ' b ', None, Decimal('1.5'), 0.0; rep in 1..2" % _k,
                            encodes=["src/odfdo/table.py:Table.to_csv,__str__,iter_values", "src/odfdo/row.py:Row.get_values", "src/odfdo/element_typed.py:ElementTyped.get_value"],
                            stubs=["/verif/shadow/lxml (symdom)", "h_span._CsvStub: the csv module replaced by a recorder of the rows given to writerow (csv is C code)"]))
+
+# thorough tier: the same reader obligations with repeats up to 3 and positions up to 6 (VERIF_DEPTH=1)
+from props.common import kget_obligations as _kg  # noqa: E402
+
+OBLIGATIONS += [o for o in _kg(['ktrans_twice_small', 'ktrans_ragged', 'koptimize', 'krstrip', 'krstrip_styled_rows']) if o.name.endswith("@d1")]
